@@ -94,6 +94,7 @@ fn main() {
                 "c03" => c03::run(&args, &mut out),
                 "c09" => c09::run(&args, &mut out),
                 "c18" => c18::run(&args, &mut out),
+                "c18symc" => c18::run_symc(&args, &mut out),
                 "c16" => c16::run(&args, &mut out),
                 "c14" => c14::run(&args, &mut out),
                 "c14typed" => c14_typed::run(&args, &mut out),
